@@ -89,15 +89,23 @@ def check(repo: Repo, rep: Report) -> None:
     rep.ob("H1-trampolined-subscribe", sr, "schedule_required() = trampoline.idle()", ok, "schedule_required does not report the trampoline's idle state")
     # a drain that ends by an exception must not leave the other sources' pending steps behind: the next, unrelated
     # subscribe on this thread would resurrect them (a zombie never-ending source feeding an exhausted `take`)
-    rep.rule("H4-drain-leaves-nothing", "Trampoline.run empties the queue, under the lock, in the finally that restores idle", floor=1)
+    rep.rule("H4-drain-leaves-nothing", "Trampoline.run empties the queue, under the lock, on the failure path of the drain that restores idle (finally / re-raising catch-all)", floor=1)
     trun = repo.fn("reactivex/scheduler/trampoline.py", "Trampoline.run")
     clears = [s for s in sites(trun) if isinstance(s.node, ast.Call) and isinstance(s.node.func, ast.Attribute) and s.node.func.attr == "clear"
               and dotted(s.node.func.value) == "self._queue"]
     idles = [s for s in sites(trun) if isinstance(s.node, ast.Assign) and u(s.node.targets[0]) == "self._idle" and u(s.node.value) == "True"]
-    ok = bool(clears) and bool(idles) and all(c.ctx.finals and c.ctx.locks for c in clears) and \
-        any(c.ctx.finals == i.ctx.finals for c in clears for i in idles)
-    rep.ob("H4-drain-leaves-nothing", trun, "finally: with lock: _idle = True; _queue.clear()", ok,
-           "Trampoline.run does not discard the remaining queue when the drain ends (in the finally, under the lock): after an "
+    def _failure_ctx(x):
+        # runs when the drain raises: inside a `finally`, or inside a catch-all handler that re-raises
+        if x.ctx.finals:
+            return ("finally", id(x.ctx.finals[-1]))
+        for h in x.ctx.handlers:
+            if (h.type is None or u(h.type) in ("BaseException", "Exception")) and any(isinstance(y, ast.Raise) and y.exc is None for y in ast.walk(h)):
+                return ("handler", id(h))
+        return None
+    ok = bool(clears) and bool(idles) and all(_failure_ctx(c) and c.ctx.locks for c in clears) and \
+        any(_failure_ctx(c) == _failure_ctx(i) for c in clears for i in idles)
+    rep.ob("H4-drain-leaves-nothing", trun, "drain raised: with lock: _idle = True; _queue.clear()", ok,
+           "Trampoline.run does not discard the remaining queue when the drain ends by an exception (under the lock): after an "
            "action raised, steps queued by other sources survive and are run by the next unrelated subscribe on the thread -- a "
            "never-ending source whose early terminator is already exhausted keeps producing for ever")
     rep.rule("F0-scheduler-forwarded", "trigger-driven early terminators subscribe source and trigger with the subscriber's scheduler", floor=2)
